@@ -186,5 +186,5 @@ func runFullCeremony(c *kit.Case, cer ceremony, reg *keyRegistry) {
 	r.Count("ceremonies_succeeded", 1)
 	r.Count("ceremonies_succeeded_"+cer.Engine, 1)
 	r.Seen("configs", fmt.Sprintf("%s/n%d/t%d/v%d", cer.Engine, n, th, v))
-	checkShares(c, cer, results, "real libp2p/TCP order", reg)
+	checkShares(c, cer, results, "real libp2p/TCP order", reg, "")
 }
